@@ -86,7 +86,8 @@ fn strip_comment(line: String) -> String {
 }
 
 fn strip_whitespaces(line: String) -> String {
-    let without_whitespaces = line.replace(SYMBOL.whitespace, SYMBOL.empty_string);
+    // TOML white space is the space and the tab
+    let without_whitespaces = line.replace(SYMBOL.whitespace, SYMBOL.empty_string).replace('\t', SYMBOL.empty_string);
 
     without_whitespaces
 }
